@@ -22,6 +22,12 @@ object, in a batch of the *same shape* right after the base call with the rows r
 between calls), and as 2-D single waveforms.  Each of these is a <<"batch", form, row, exc>> law entry of the
 record: the existing clause BatchP (the features of a waveform do not depend on the batch it came in) and, when
 the copy raised, nothing else judges them.
+
+What the real call hands back is read defensively: a result that is not one row of scalar features per waveform, or a step
+that leaves something else than scalars / a vector (NotARow, check_record), counts as the call not delivering its features
+(Succeeds for the base execution, the law's clause for a copy); a call that returns without having gone once through the
+four steps is judged on step records rebuilt from its return value (RESEQ); the float laws treat a raising / malformed copy
+as the law being false.
 """
 import copy
 import itertools
@@ -35,7 +41,8 @@ import numpy as np
 from vkit import tlc, tracecheck
 
 NAN = 10 ** 6       # Features.tla NaNV (outside 3 x the value range)
-BAD = 10 ** 9       # a reported value that is not an integer (never equal to anything the spec computes)
+BAD = 5 * 10 ** 8   # a reported value that is not an integer (never equal to anything the spec computes); TLC integers are
+                    # 32-bit and the property layer forms 3 * value (ScaleP) and 2 * value + value (half-peak): 3 * BAD < 2**31
 FIELDS = ["ptr", "pk", "pkv", "tr", "trv", "tip", "tipv", "hpost", "hpre", "hpostv", "hprev", "rec", "recv"]
 COLS = {"ptr": "peak_trace_idx", "pk": "peak_time_idx", "pkv": "peak_val", "tr": "trough_time_idx",
         "trv": "trough_val", "tip": "tip_time_idx", "tipv": "tip_val", "hpost": "half_peak_post_time_idx",
@@ -52,6 +59,7 @@ FORMS = {1: "float32 input", 2: "int16 input", 3: "int32 input", 4: "int64 input
 INT_FORMS = {2: np.int16, 3: np.int32, 4: np.int64}
 FORM_COUNT = {}
 UNBOUND = []        # step functions of ibldsp.waveforms the recorder could not find (see Recorder)
+RESEQ = []          # first sequence of recorded steps that was not once through the four steps, in order (see run_one_batch)
 
 
 def _iv(x):
@@ -72,6 +80,32 @@ def _ints(a):
 
 def _col(df, name):
     return _ints(df[name].to_numpy())
+
+
+class NotARow(Exception):
+    """what the real call handed back cannot be read as one row of integer-valued features per waveform (no data frame, a
+    missing column, another number of rows, cells that are lists / strings / complex ...): for the verdict the call did
+    not deliver the features, i.e. it ended abnormally (clause Succeeds for the base execution, the law's own clause for a
+    copy) - never an exception of the harness"""
+
+
+def _is_int(v):
+    return isinstance(v, int) and not isinstance(v, bool) and abs(v) <= BAD
+
+
+def check_record(n, nrows, rows, evs):
+    """raises NotARow unless: one data-frame row per waveform; every reported value and every field of a step event is one
+    integer (BAD for a non-integer), the inverted trace of the TipTrough event a flat list of integers"""
+    if nrows != n:
+        raise NotARow(f"{nrows} rows for {n} waveforms")
+    for row in rows:
+        if len(row) != len(FIELDS) or not all(_is_int(v) for v in row):
+            raise NotARow("a reported value is not a scalar")
+    for ev in evs or []:
+        for e in ev:
+            scalars, trace = (e[1:-1], e[-1]) if e[0] == "TipTrough" else (e[1:], [])
+            if not all(_is_int(v) for v in scalars) or not isinstance(trace, list) or not all(_is_int(v) for v in trace):
+                raise NotARow(f"step {e[0]} left a value that is not a scalar / a trace that is not a vector")
 
 
 # ------------------------------------------------------------------------------------------------
@@ -120,7 +154,7 @@ class Recorder:
             return df
 
         def recovery_point(arr_peak, df, idx_from_trough=5):
-            rec.d = int(idx_from_trough)
+            rec.d = max(-BAD, min(BAD, int(idx_from_trough)))     # (the record goes to TLC: 32-bit integers)
             df = rec.orig["recovery_point"](arr_peak, df, idx_from_trough=idx_from_trough)
             rec.ev.append(("Recovery", [_col(df, COLS[k]) for k in ("rec", "recv")]))
             return df
@@ -219,6 +253,17 @@ def run_one_batch(arr, d, events, form=0):
             try:
                 if r.orig:
                     df = call(arr, d)
+                    seq = [name for name, _ in r.ev]
+                    if seq != NAMES:
+                        # the call returned without going once through each of the four steps in order (a step skipped,
+                        # inlined, done twice): the step-by-step record would be dropped as out of sequence and nothing
+                        # would judge the returned values.  As when the steps cannot be wrapped at all: rebuild the step
+                        # records from what the public call returns, report the drift (unbound_note)
+                        if not RESEQ:
+                            RESEQ.append(seq)
+                        dkeep = r.d
+                        df, r.ev = synthesized_events(arr, d)
+                        r.d = dkeep if dkeep is not None else (5 if d is None else d)
                 else:
                     df, r.ev = synthesized_events(arr, d)
                     r.d = 5 if d is None else d
@@ -234,6 +279,7 @@ def run_one_batch(arr, d, events, form=0):
     back = 2.0 ** 20 if form == 10 else 1.0
     cols = {k: (_col(df, COLS[k]) if k in IDX else _ints(df[COLS[k]].to_numpy(dtype=float) * back)) for k in FIELDS}
     rows = [[cols[k][i] for k in FIELDS] for i in range(n)]
+    check_record(n, len(df), rows, evs)
     return rows, evs, dobs
 
 
@@ -269,9 +315,16 @@ def robust(mats, d, events, budget, form=0):
                 out[i] = {"row": rows[j], "ev": evs[j] if evs else None, "exc": "", "d": dobs}
         except Exception as e:
             if len(idx) == 1:
-                ev = getattr(e, "_c14_events", [])
-                out[idx[0]] = {"row": [], "ev": [[name] + [c[0] for c in cols] for name, cols in ev],
-                               "exc": type(e).__name__, "d": getattr(e, "_c14_d", None)}
+                ev = []
+                for name, cols in getattr(e, "_c14_events", []):
+                    # the steps recorded before the call raised (as far as each left one scalar per field)
+                    try:
+                        one = [name] + [c[0] for c in cols]
+                        check_record(1, 1, [], [[one]])
+                    except (NotARow, IndexError, TypeError):
+                        break
+                    ev.append(one)
+                out[idx[0]] = {"row": [], "ev": ev, "exc": type(e).__name__, "d": getattr(e, "_c14_d", None)}
                 budget.left -= 1
                 return
             if budget.left <= 0:
@@ -282,6 +335,13 @@ def robust(mats, d, events, budget, form=0):
             rec(idx[h:])
     rec(list(range(len(mats))))
     return out
+
+
+def offset_of(o, dd):
+    """the recovery offset of a record: the one the call was observed to hand to recovery_point; when the call raised, the
+    one it was asked for (Succeeds speaks about the arguments: an offset the code made up - huge, negative - must not turn
+    the input into one on which raising is allowed)"""
+    return o["d"] if o["d"] is not None and o["exc"] == "" else dd
 
 
 def admissible_py(m):
@@ -306,8 +366,7 @@ def evaluate(ctx, mats, d, rnd, budget, single_cap, nforms=len(FORMS), form_cap=
     # inputs on which the call may legitimately raise: one call each
     for i in oth:
         o = robust([mats[i]], d, True, Budget(10 ** 9))[0]
-        recs.append({"w": mats[i], "d": o["d"] if o["d"] is not None else dd, "exc": o["exc"], "ev": o["ev"],
-                     "ret": o["row"], "laws": []})
+        recs.append({"w": mats[i], "d": offset_of(o, dd), "exc": o["exc"], "ev": o["ev"], "ret": o["row"], "laws": []})
     if adm:
         sel = [mats[i] for i in adm]
         base = robust(sel, d, True, budget)
@@ -364,8 +423,7 @@ def evaluate(ctx, mats, d, rnd, budget, single_cap, nforms=len(FORMS), form_cap=
                 if alt[i] is not None:
                     laws.append(["batch", 0, alt[i]["row"], alt[i]["exc"]])
                 laws += flaws[i]
-            recs.append({"w": m, "d": o["d"] if o["d"] is not None else dd, "exc": o["exc"], "ev": o["ev"],
-                         "ret": o["row"], "laws": laws})
+            recs.append({"w": m, "d": offset_of(o, dd), "exc": o["exc"], "ev": o["ev"], "ret": o["row"], "laws": laws})
     ctx.count(len(recs) * 4)
     return recs
 
@@ -533,6 +591,10 @@ def report(ctx, t, v, label):
 
 
 def unbound_note(ctx):
+    if RESEQ:
+        ctx.spec_drift(f"compute_spike_features no longer goes once through find_peak, find_tip_trough, half_peak_point, "
+                       f"recovery_point in this order (steps recorded during a call that returned: {RESEQ[0]}): the step records "
+                       f"were rebuilt from the returned data frame and peak trace (property layer judged on those)")
     if UNBOUND:
         ctx.spec_drift(f"ibldsp.waveforms no longer has the step function(s) {', '.join(UNBOUND)} that spec/lib/Features.tla "
                        f"transcribes: the step records were rebuilt from the returned data frame and peak trace "
@@ -551,6 +613,7 @@ def run(ctx):
     rnd = random.Random(ctx.seed)
     nrnd = np.random.default_rng(ctx.seed)
     FORM_COUNT.clear()
+    del RESEQ[:]
     # 1. model: implementation layer => property layer, exhaustive boxes (parallel JVMs)
     cfgs = (["Features_quick", "Features_quick2", "Features_quickN"] if ctx.quick else
             ["Features_thorough1", "Features_thorough2", "Features_thorough3", "Features_thoroughN", "Features_quick2"])
@@ -714,40 +777,66 @@ def float_laws(ctx, real, rnd, full=True):
         for dtype, factors, with_perm in kinds:
             arr = arr64.astype(dtype)
             form = 0 if dtype is np.float64 else 1          # call() hands the batch over as float64 / float32
+            tag = "" if dtype is np.float64 else f" ({np.dtype(dtype).name})"
+
+            def broken(what, i, text, scale_c=1.0):
+                ctx.violation("feat:" + what + "-float", f"{what} law (projection){tag}: {text}"
+                              + (f" (factor {scale_c!r})" if what == "scale" else ""),
+                              {"kind": "float", "law": what, "w": np.where(np.isnan(ws[i]), None, ws[i]).tolist()})
             try:
                 base = call(arr, None, form)
             except Exception:
                 continue        # an integer-count twin of this batch is judged by the trace spec
+            try:
+                basecols = {col: base[col].to_numpy(dtype=float) for col in base.columns}
+                if any(v.shape != (len(ws),) for v in basecols.values()):
+                    raise NotARow(f"not one value per waveform ({len(base)} rows)")
+            except Exception as e:
+                # the call returned, but not one row of numbers for each waveform of the batch: no waveform has its features
+                broken("batch", 0, f"the call on a {shape} batch of {len(ws)} returned something that is not one row of numbers "
+                       f"per waveform: {type(e).__name__}: {str(e)[:100]}")
+                continue
             n += len(ws)
-            tag = "" if dtype is np.float64 else f" ({np.dtype(dtype).name})"
 
-            def cmp(df, what, scale_c=1.0, ptr_map=None):
-                for col in base.columns:
-                    a, b = base[col].to_numpy(dtype=float), df[col].to_numpy(dtype=float)
+            def cmp(copy_arr, what, scale_c=1.0, ptr_map=None, order=None, form=form):
+                """the copy is run through the real code and compared column by column; a copy on which the call raises,
+                or that comes back without a column / with another number of rows / with cells that are no numbers, does
+                not have the features the law demands"""
+                try:
+                    df = call(copy_arr, None, form)
+                    if order is not None:
+                        df = df.iloc[np.argsort(order)].reset_index(drop=True)
+                    got = {col: df[col].to_numpy(dtype=float) for col in basecols}
+                    if any(v.shape != (len(ws),) for v in got.values()):
+                        raise NotARow("not one value per waveform")
+                except Exception as e:
+                    broken(what, 0, f"the base batch {shape} returned its features, the copy did not: {type(e).__name__}: "
+                           f"{str(e)[:100]}", scale_c)
+                    return
+                for col, a in basecols.items():
+                    b = got[col]
                     if col == "peak_trace_idx" and ptr_map is not None:
-                        a = np.array([ptr_map[i][int(v)] for i, v in enumerate(a)], dtype=float)
+                        # a reported trace that is no trace of the waveform maps to none (NaN: never equal)
+                        a = np.array([ptr_map[i].get(int(v), np.nan) if np.isfinite(v) else np.nan for i, v in enumerate(a)], dtype=float)
+                        a = np.where(np.isnan(a), np.inf, a)
                     if col in valcols:
                         a = a * scale_c
                     ok = np.isclose(a, b, rtol=1e-9 if dtype is np.float64 else 1e-5, atol=0.0, equal_nan=True) | ((a == b))
                     if not np.all(ok):
                         i = int(np.where(~ok)[0][0])
-                        ctx.violation("feat:" + what + "-float", f"{what} law (projection){tag}: column {col} of waveform {i} of a "
-                                      f"{shape} batch is {b[i]!r}, required {a[i]!r}"
-                                      + (f" (factor {scale_c!r})" if what == "scale" else ""),
-                                      {"kind": "float", "law": what, "w": np.where(np.isnan(ws[i]), None, ws[i]).tolist()})
+                        broken(what, i, f"column {col} of waveform {i} of a {shape} batch is {b[i]!r}, required {a[i]!r}", scale_c)
                         return
             for c in factors:
-                cmp(call(arr * dtype(c), None, form), "scale", scale_c=c)
+                cmp(arr * dtype(c), "scale", scale_c=c)
             order = list(range(len(ws)))[::-1]
-            df = call(arr[order], None, form)
-            cmp(df.iloc[np.argsort(order)].reset_index(drop=True), "batch")
+            cmp(arr[order], "batch", order=order)
             if C > 1 and with_perm:
                 uniq = [np.sum(np.max(np.abs(np.nan_to_num(w)), axis=0) == np.max(np.abs(np.nan_to_num(w)))) == 1 for w in ws]
                 if all(uniq):
                     perms = [rnd.sample(range(C), C) for _ in ws]
                     parr = np.stack([w[:, p] for w, p in zip(ws, perms)])
                     inv = [{old: new for new, old in enumerate(p)} for p in perms]
-                    cmp(call(parr, None), "permutation", ptr_map=inv)
+                    cmp(parr, "permutation", ptr_map=inv, form=0)
     ctx.count(n * 6)
     ctx.cov["float_law_waveforms"] = n
 
